@@ -142,6 +142,8 @@ class RichGen:
                 return [T(r.choice(["List", "Map"]))]
             return self.qname()
         if x < 0.6:
+            if allow_void and self.r.random() < 0.1:
+                return [T("void"), T("["), T("]")]
             return self.type_(depth - 1) + [T("["), T("]")]
         if x < 0.8:
             return [T("List"), T("<")] + self.type_(depth - 1) + [T(">")]
